@@ -7,7 +7,7 @@
 
 From stdpp Require Import gmap list.
 From Coq Require Import NArith Lia.
-From DC Require Import Ts Orswot OrswotInv OrswotLww OrswotTimely Actor ActorProofs Cluster ClusterProofs.
+From DC Require Import Ts Orswot OrswotInv OrswotLww OrswotTimely Actor ActorProofs Cluster ClusterProofs Handle.
 Open Scope N_scope.
 
 (** The call returns Ok exactly when every selected replica acknowledged; otherwise it
@@ -65,6 +65,23 @@ Section C06.
       vle (Some (t, d)) (view (node (cstep c (CBatch j ms)) j).1 k).
   Proof. exact (batch_delivers H Hvalid Hwithin Hdistinct). Qed.
 End C06.
+
+(** "...registered with the distributor before the fan-out": the call as a list of effects
+    ([Handle.v]).  Whatever the selected replicas answer, the mutation is applied locally and
+    handed to the task distributor, and the result is the count above. *)
+Theorem C06_every_call_registers_with_the_distributor :
+  forall sel acked,
+    let '(effs, res) := client_call true sel acked in
+    In ELocal effs /\ In ERegister effs /\ res = distribute sel acked /\
+    (forall j, In j sel -> In (ESend j) effs).
+Proof. exact client_call_registers. Qed.
+
+(** Registration moved behind the consistency round (seeded change C06/B): a failed round
+    leaves the mutation on the issuer only. *)
+Theorem C06_register_after_round_refuted :
+  let '(effs, res) := client_call false [1; 2]%nat (fun j => Nat.eqb j 1) in
+  res = DConsistencyFailure 1 2 /\ In ELocal effs /\ ~ In ERegister effs.
+Proof. exact register_after_round_refuted. Qed.
 
 (** Non-vacuity: 4 nodes, level Quorum (2 others required), one selected replica fails. *)
 Example C06_nonvacuous :
